@@ -16,7 +16,7 @@ CRATES = ['c01']
 MODES = ['debug', 'release']
 IMPORTS = 'Require Import V.Base.MachineInt V.Model.LogBase V.Model.Publication V.Model.StreamSys V.Oracle.C01Oracle.'
 RULE = ('histories of 5..60 operations on one publisher (shared Publication / ExclusivePublication, alternating), one real Image over '
-        'the SAME in-memory log and a real FragmentAssembler behind the image\'s handler: {offer k len | try_claim len, later commit k / abort | '
+        'the SAME in-memory log and a real FragmentAssembler behind the image\'s handler: {offer k len (every fourth one on the shared publication as a vectored offer_bulk of the same bytes, cut anywhere - modelled as the offer of the concatenation, which C18 justifies) | try_claim len, later commit k / abort | '
         'poll limit | driver: set publication limit, zero partition i, set connected | close}. Geometry: term length 1 KiB / 4 KiB / 64 KiB, '
         'MTU a multiple of 32 in 64..term/8; hand-over at (n0, off0) with n0 in {0,1,2,5, 2^31-3, random}, off0 in {0, half, TL-64, TL-32, TL, '
         'random aligned}; initial term id in {0, -1, MIN, MAX-2..MAX, random}. Message lengths from {0,1,31,32,33, payload-1, payload, payload+1, '
@@ -559,6 +559,9 @@ LAST_CASES = []
 
 def generate(rng, tier):
     big = tier == 'thorough'
+    import random
+    global BULK_RNG
+    BULK_RNG = random.Random(rng.getrandbits(32) ^ 0xB01C)
     n = 4000 if big else 300
     cases = boundary_cases()
     agg = {}
@@ -568,6 +571,7 @@ def generate(rng, tier):
         pubkind = 's' if i % 2 == 0 else 'x'
         malformed = (i % 10 == 9)
         case, t, drained = gen_history(rng, pubkind, malformed=malformed, last_terms=(i % 20 == 19 or i % 8 in (3, 4)))
+        case = _with_bulk(BULK_RNG, case)     # own stream: the histories stay what they were
         cases.append(case)
         for key, v in t.st.items():
             agg[key] = agg.get(key, 0) + v
@@ -592,8 +596,47 @@ def generate(rng, tier):
 # ---------------------------------------------------------------------------------------------
 # encoding
 
+BULK_RNG = None
+
+
+def _impl_op(o):
+    # an offer carrying a split (['o', k, len, l1, l2, ...], l1 + l2 + ... = len) goes through offer_bulk; the model and the
+    # oracle see the offer of the concatenation (op_coq reads k and len only) - C18 is what makes the two the same
+    if o[0] == 'o' and len(o) > 3:
+        return ' '.join(str(x) for x in ['b', o[1]] + list(o[3:]))
+    return ' '.join(str(x) for x in o)
+
+
+def _split(rng, total, mpl):
+    """buffers for a vectored offer: cuts anywhere, also inside a fragment and exactly on fragment boundaries, empty buffers too"""
+    if total <= 0:
+        return rng.choice([[0], [0, 0]])
+    cuts = sorted(rng.randrange(0, total + 1) for _ in range(rng.choice([1, 1, 2, 3, 5])))
+    if rng.random() < 0.3 and total > mpl:
+        cuts = sorted(set(cuts + [mpl * rng.randrange(1, total // mpl + 1)]))
+    parts, prev = [], 0
+    for c in cuts:
+        parts.append(c - prev)
+        prev = c
+    parts.append(total - prev)
+    return parts
+
+
+def _with_bulk(rng, case):
+    """every fourth offer of a history on a shared publication becomes a vectored offer of the same message"""
+    if case.get('pub') != 's':
+        return case
+    mpl = case['geom'][1] - 32
+    ops = []
+    for o in case['ops']:
+        if o[0] == 'o' and len(o) == 3 and o[2] >= 0 and rng.random() < 0.25:
+            o = list(o) + _split(rng, o[2], max(1, mpl))
+        ops.append(o)
+    return dict(case, ops=ops)
+
+
 def impl_line(c):
-    ops = ' ; '.join(' '.join(str(x) for x in o) for o in c['ops'])
+    ops = ' ; '.join(_impl_op(o) for o in c['ops'])
     return 'hist %s %s | %s' % (c['pub'], ' '.join(str(x) for x in c['geom']), ops)
 
 
@@ -670,6 +713,8 @@ def shrink(c):
         if o[0] == 'o' and o[2] > 1:
             for v in (0, 1, o[2] // 2):
                 keep(dict(c, ops=ops[:i] + [['o', o[1], v]] + ops[i + 1:]))
+        if o[0] == 'o' and len(o) > 4:      # a vectored offer: fewer buffers
+            keep(dict(c, ops=ops[:i] + [list(o[:3]) + [o[3] + o[4]] + list(o[5:])] + ops[i + 1:]))
         if o[0] == 'c' and o[1] > 1:
             for v in (0, 1, o[1] // 2):
                 keep(dict(c, ops=ops[:i] + [['c', v]] + ops[i + 1:]))
